@@ -220,7 +220,7 @@ def c07(pid, tier, seed, t0):
 
 
 def c10(pid, tier, seed, t0):
-    stages = [H("picker-checked", "c10", "checked", args={"quick": ["--scale", "8"], "thorough": ["--scale", "1"]})]
+    stages = [H("picker-checked", "c10", "checked", args={"quick": ["--scale", "8"], "thorough": ["--scale", "2"]})]
     return run_stages(pid, tier, seed, t0, "exploration", stages,
                       required=("full_streams", "loud_streams", "coincidence_hash_eq_killer",
                                 "coincidence_counter_eq_killer", "coincidence_counter_eq_hash",
@@ -231,8 +231,8 @@ def c10(pid, tier, seed, t0):
 
 
 def c11(pid, tier, seed, t0):
-    stages = [H("draws-checked", "c11", "checked", args={"quick": ["--scale", "2"], "thorough": ["--scale", "1"]}),
-              H("draws-in-search", "c11s", "checked", group="c11s")]
+    stages = [H("draws-checked", "c11", "checked", args={"quick": ["--scale", "2"], "thorough": ["--scale", "4"]}),
+              H("draws-in-search", "c11s", "checked", group="c11s", args={"quick": [], "thorough": ["--cases", "400000"]})]
     return run_stages(pid, tier, seed, t0, "exploration", stages,
                       required=("repetitions_observed", "repetition_of_oldest_position_in_window",
                                 "clock_ge_100_observed", "terminal_at_clock_ge_100", "fen_start_with_nonzero_clock",
@@ -248,7 +248,7 @@ def c11(pid, tier, seed, t0):
 
 
 def c16(pid, tier, seed, t0):
-    stages = [H("eval-checked", "c16", "checked", args={"quick": ["--scale", "8"], "thorough": ["--scale", "1"]})]
+    stages = [H("eval-checked", "c16", "checked", args={"quick": ["--scale", "8"], "thorough": ["--scale", "8"]})]
     return run_stages(pid, tier, seed, t0, "exploration", stages,
                       required=("phase_above_24", "six_or_more_queens", "blend_cube_triples"),
                       assumptions=["pure middlegame / endgame assessments are the engine's own evaluation with the "
@@ -283,7 +283,7 @@ def c19(pid, tier, seed, t0):
 
 
 def c20(pid, tier, seed, t0):
-    stages = [H("see-checked", "c20", "checked", args={"quick": ["--scale", "10"], "thorough": ["--scale", "1"]})]
+    stages = [H("see-checked", "c20", "checked", args={"quick": ["--scale", "10"], "thorough": ["--scale", "8"]})]
     return run_stages(pid, tier, seed, t0, "exploration", stages,
                       required=("target_undefended", "victim_ge_attacker", "swaplist_order_irrelevant",
                                 "swaplist_with_xray_attacker", "capturing_promotions"),
@@ -323,7 +323,7 @@ def c08(pid, tier, seed, t0):
 
 
 def c09(pid, tier, seed, t0):
-    stages = [H("stops-checked", "c09", "checked")]
+    stages = [H("stops-checked", "c09", "checked", args={"quick": [], "thorough": ["--triples", "9000"]})]
     return run_stages(pid, tier, seed, t0, "fault_enumeration", stages,
                       required=("triples_enumerated", "stop_points_enumerated", "followup_searches",
                                 "fallback_to_first_picked_move", "pos_quiescence_heavy",
